@@ -28,6 +28,9 @@ pub enum Act {
     Fail,
     /// `started` fails on every incarnation but the first
     FailOnRestart,
+    /// hand a weak handle obtained from the actor's own context (`Context::weak_sender` for
+    /// `caller == false`, `Context::weak_caller` otherwise) to the clients, in store slot `x`
+    Share { x: usize, caller: bool },
 }
 
 #[derive(Serialize, Deserialize, Clone, Debug, PartialEq)]
